@@ -114,6 +114,30 @@ pub fn gen_multi_raw(r: &mut Rng) -> String {
         }
         s.push_str(nl(r));
     }
+    // half-edited endings: a continuation backslash at the very end of the content, possibly
+    // followed by blank / whitespace-only lines before the closing delimiter line
+    if r.chance(1, 6) {
+        if s.ends_with('\n') || s.ends_with('\r') {
+            while s.ends_with('\n') || s.ends_with('\r') {
+                s.pop();
+            }
+        }
+        match r.below(4) {
+            0 => s.push_str("  one \\"),
+            1 => s.push('\\'),
+            2 => s.push_str(&format!("{margin}x\\")),
+            _ => s.push_str("\\s\\"),
+        }
+        s.push_str(nl(r));
+        for _ in 0..r.usize(3) {
+            match r.below(3) {
+                0 => {}
+                1 => s.push_str("   "),
+                _ => s.push('\t'),
+            }
+            s.push_str(nl(r));
+        }
+    }
     match r.below(16) {
         0 => s.push('x'), // non-whitespace margin
         1 => {
